@@ -113,17 +113,20 @@ def keepalive(v, d, seed, tier, only=None):
         for e in t["ev"]:
             if e.get("a") != "KeepAlive":
                 continue
-            if e.get("res") == "died" or "stopA10" not in e:
+            if e.get("res") == "died" or "stopA10" not in e or e.get("note"):
                 # the driver process died inside this scenario: run it again on its own; the verdict is taken from a run
                 # that shows what the real code does (a death that repeats is a panic of the code under test)
-                log("NOTE keep-alive scenario %s: the driver process died (%s); running it again alone" % (
-                    json.dumps(e.get("frame"), sort_keys=True), ((t.get("note") or "").strip().splitlines() or ["no output"])[-1][:300]))
+                log("NOTE keep-alive scenario %s: %s (%s); running it again alone" % (
+                    json.dumps(e.get("frame"), sort_keys=True), "could not be set up" if e.get("note") else "the driver process died",
+                    e.get("note") or ((t.get("note") or "").strip().splitlines() or ["no output"])[-1][:300]))
                 v.cov["keepalive_reruns_after_process_death"] = v.cov.get("keepalive_reruns_after_process_death", 0) + 1
                 sf1, tf1 = os.path.join(d, "ka1.json"), os.path.join(d, "ka1.ndjson")
                 json.dump([dict(sc=89999, seed=seed, steps=[dict(a="KeepAlive", frame=e.get("frame"))], opt=dict(reps=1))], open(sf1, "w"))
                 vlib.run_driver(drv, sf1, tf1, ["-workers", "1", "-stall", "60"], timeout=300)
                 t1 = vlib.read_traces(tf1)[0]
                 e1 = ([x for x in t1["ev"] if x.get("a") == "KeepAlive"] or [{}])[-1]
+                if e1.get("note"):
+                    raise vlib.Machinery("keep-alive scenario could not be set up, twice: %s" % e1.get("note"))
                 if e1.get("res") == "died" or "stopA10" not in e1:
                     v.classify(dict(cause="keepalive_died", frame=json.dumps(e.get("frame"), sort_keys=True)),
                                "keep-alive scenario %s: the process died, twice: %s" % (json.dumps(e.get("frame"), sort_keys=True), (t1.get("note") or "no output")[-900:]),
